@@ -178,6 +178,11 @@ Fixpoint join_slash (l : list str) : str :=
   match l with [] => [] | [x] => x | x :: t => x ++ ch_slash :: join_slash t end.
 Definition strip_prefix (p base : str) : option str :=
   if list_prefix (components base) (components p)
-  then let rest := drop_comps (split_slash p []) (length (components base)) true (is_absolute p) in
-       Some (join_slash (rev (trim_left (rev (trim_left rest)))))
+  then match length (components base) with
+       | O => (* nothing consumed: the whole path, separators and "." pieces trimmed at the end only *)
+              let r := rev (strip_trailing (rev p)) in
+              Some (match r with [] => if is_absolute p then [ch_slash] else [] | _ => r end)
+       | k => let rest := drop_comps (split_slash p []) k true (is_absolute p) in
+              Some (join_slash (rev (trim_left (rev (trim_left rest)))))
+       end
   else None.
